@@ -1,3 +1,4 @@
+\* pass C: the model run between Begin and End must reproduce the recorded state and outputs; auxiliary invariants
 CONSTANT Threads = {"t1", "t2", "t3", "t4"}
 CONSTANT Keys <- TKeys
 CONSTANT CvKeys <- TCvKeys
